@@ -20,7 +20,7 @@ from vlib.core import safe_repr
 PROP = "C18"
 LEVEL = "exploration"
 EVAL_COUNTER = "ops_judged"
-GATES = ["ops_judged", "sequences", "fallback_reads", "override_reads", "passthrough_writes", "forks_rechecked", "deprecation_warnings_seen", "type_rejections"]
+GATES = ["ops_judged", "sequences", "fallback_reads", "override_reads", "passthrough_writes", "forks_rechecked", "deprecation_warnings_seen", "type_rejections", "directed_path_cases", "directed_collection_alias_cases"]
 RULE = (
     "all alias configurations (Alias/DeprecatedAlias x passthrough x transform x fallback x path shape in {t, a.b, d[\"k\"], a.d[\"k\"], "
     "d[\"k\"][\"j\"]}) on plain and spec-class hosts x all operation sequences up to the tier's length over {read/write/delete alias, "
@@ -30,7 +30,7 @@ RULE = (
 ASSUMPTIONS = [
     "two-variable model in checks/c18.py; which of AttributeError/KeyError a missing item-path target raises on passthrough deletion is not judged",
     "DeprecatedAlias: at least one warning of the configured class per alias access is required (exactly-one is counted, not required, on spec hosts)",
-    "alias paths with an attribute after an item lookup are rejected by the library at declaration time and only recorded",
+    "(attribute steps after item steps are legal paths since repair 4cd3092 and are judged by the directed path cases)",
 ]
 EXHAUSTIVE = {"quick": True, "thorough": True}
 
@@ -431,9 +431,115 @@ def all_configs():
     return out
 
 
+DIRECTED_SRC = """
+from typing import Dict, List, Set
+from spec_classes import spec_class, Alias
+
+@spec_class
+class Item:
+    xs: List[int] = [1, 2]
+    d: Dict[str, int] = {"a": 1}
+    s: Set[int] = {1}
+    ys: List[int] = Alias("xs")
+    e: Dict[str, int] = Alias("d")
+    t: Set[int] = Alias("s")
+"""
+
+
+class _Port:
+    def __init__(self, port):
+        self.port = port
+
+
+def directed_cases(ctx):
+    """
+    (1) path grammar: every combination of step kinds (attribute / ["key"] / ['key']) incl. an attribute step after
+        an item step and keys containing dots is a legal path and reads the value a plain expression reads;
+    (2) element helpers on a non-passthrough alias of a collection, also _inplace=True, shadow the target without
+        modifying it, and deleting the alias restores the live view.
+    """
+    from spec_classes import Alias
+
+    paths = {
+        'registry["main"].port': lambda h: h.registry["main"].port,
+        "registry['main'].port": lambda h: h.registry["main"].port,
+        'settings["db.port"]': lambda h: h.settings["db.port"],
+        "settings['db.port']": lambda h: h.settings["db.port"],
+        'nested["a"]["b"]': lambda h: h.nested["a"]["b"],
+        'nested["a"][\'b\']': lambda h: h.nested["a"]["b"],
+        'holder.registry["main"].port': lambda h: h.holder.registry["main"].port,
+    }
+    for path, plain in paths.items():
+        ctx.count("ops_judged")
+        ctx.count("directed_path_cases")
+        feats = {"shape": "directed_path", "op": "ra", "path_kind": "attr_after_item" if "]." in path else "item"}
+        try:
+            al = Alias(path)
+
+            class Host:
+                pass
+
+            Host.al = al
+            al.__set_name__(Host, "al")
+            h = Host()
+            h.registry = {"main": _Port(8080)}
+            h.settings = {"db.port": 5432}
+            h.nested = {"a": {"b": 7}}
+            h.holder = Host()
+            h.holder.registry = {"main": _Port(9090)}
+            got, want = h.al, plain(h)
+        except Exception as e:
+            ctx.violation("alias_protocol", f"Alias({path!r}) (a legal attribute path) raised {type(e).__name__}: {e}", features=feats, case=["directed_path", path])
+            continue
+        if got != want:
+            ctx.violation("alias_view", f"Alias({path!r}) reads {got!r}, the plain expression reads {want!r}", features=feats, case=["directed_path", path])
+    ns = cg_exec(DIRECTED_SRC)
+    Item = ns["Item"]
+    ops = [
+        ("with_y(5)", "xs", "ys", lambda i, ip: i.with_y(5, _inplace=ip), [1, 2], [1, 2, 5]),
+        ("without_y(1)", "xs", "ys", lambda i, ip: i.without_y(1, _by_index=False, _inplace=ip), [1, 2], [2]),
+        ("update_y(0, 9)", "xs", "ys", lambda i, ip: i.update_y(0, 9, _by_index=True, _inplace=ip), [1, 2], [9, 2]),
+        ("transform_y(0, inc)", "xs", "ys", lambda i, ip: i.transform_y(0, lambda v: v + 1, _by_index=True, _inplace=ip), [1, 2], [2, 2]),
+        ("with_e_item('b', 2)", "d", "e", lambda i, ip: i.with_e_item("b", 2, _inplace=ip), {"a": 1}, {"a": 1, "b": 2}),
+        ("without_e_item('a')", "d", "e", lambda i, ip: i.without_e_item("a", _inplace=ip), {"a": 1}, {}),
+        ("with_t_item(2)", "s", "t", lambda i, ip: i.with_t_item(2, _inplace=ip), {1}, {1, 2}),
+        ("without_t_item(1)", "s", "t", lambda i, ip: i.without_t_item(1, _inplace=ip), {1}, set()),
+    ]
+    for label, tgt, al, fn, tgt_want, al_want in ops:
+        for ip in (False, True):
+            ctx.count("ops_judged")
+            ctx.count("directed_collection_alias_cases")
+            feats = {"shape": "directed_collection_alias", "op": label.split("(")[0], "inplace": ip, "passthrough": False}
+            item = Item()
+            try:
+                r = fn(item, ip)
+                recv_target, res_target, res_alias = getattr(item, tgt), getattr(r, tgt), getattr(r, al)
+                same_obj = res_target is res_alias
+                delattr(r, al)
+                restored = getattr(r, al)
+            except Exception as e:
+                ctx.violation("alias_protocol", f"Item.{label} (in place: {ip}) on a non-passthrough alias of a collection raised {type(e).__name__}: {e}", features=feats, case=["directed_coll", label, ip])
+                continue
+            if recv_target != tgt_want or res_target != tgt_want:
+                ctx.violation("alias_target_untouched", f"Item.{label} (in place: {ip}): a write to the alias modified its target: {tgt} == {res_target!r}, expected {tgt_want!r}", features=feats, case=["directed_coll", label, ip])
+            elif res_alias != al_want or same_obj:
+                ctx.violation("alias_view", f"Item.{label} (in place: {ip}): alias reads {res_alias!r} (same object as the target: {same_obj}), expected the local value {al_want!r}", features=feats, case=["directed_coll", label, ip])
+            elif restored != tgt_want:
+                ctx.violation("alias_view", f"Item.{label} (in place: {ip}) then del: alias reads {restored!r}, expected the live view {tgt_want!r} again", features=feats, case=["directed_coll", label, ip])
+    ctx.sig("directed", "paths", "collection_alias")
+
+
+def cg_exec(src):
+    from vlib import classgen as cg
+
+    return cg.exec_module(src, prefix="verif_c18d").__dict__
+
+
 def run(ctx, params):
     from spec_classes import Alias
 
+    if params.get("directed"):
+        return directed_cases(ctx)
     cfgs = all_configs()[params["part"] :: params["parts"]]
     length = params.get("length")
     # declaration-time rejection of attribute-after-item paths (recorded, not judged)
@@ -462,9 +568,9 @@ def run(ctx, params):
 
 def plan(tier, seed):
     if tier == "quick":
-        return [{"mode": "exh", "length": 3, "part": i, "parts": 16} for i in range(16)] + [
+        return [{"directed": True}] + [{"mode": "exh", "length": 3, "part": i, "parts": 16} for i in range(16)] + [
             {"mode": "rand", "n": 60, "rand_len": 7, "part": i, "parts": 8} for i in range(8)
         ]
-    return [{"mode": "exh", "length": 4, "part": i, "parts": 32} for i in range(32)] + [
+    return [{"directed": True}] + [{"mode": "exh", "length": 4, "part": i, "parts": 32} for i in range(32)] + [
         {"mode": "rand", "n": 1500, "rand_len": 8, "part": i, "parts": 16} for i in range(16)
     ]
